@@ -59,6 +59,12 @@ func NewRun(prop, tier, level string) *Run {
 	seed, _ := strconv.Atoi(os.Getenv("VERIF_SEED"))
 	r := &Run{Prop: prop, Tier: tier, Seed: seed, Level: level, start: time.Now(), Coverage: map[string]interface{}{},
 		known: map[string]Finding{}, knownSeen: map[string]bool{}, vioSeen: map[string]bool{}, counters: map[string]int64{}, distinct: map[string]map[string]struct{}{}, Exhaustive: true}
+	if pb, err := os.ReadFile(filepath.Join(Root, ".cache", "overlay", "passthrough.json")); err == nil {
+		var pt map[string][]string
+		if json.Unmarshal(pb, &pt) == nil && len(pt) > 0 {
+			r.Assume = append(r.Assume, fmt.Sprintf("identifiers used by the current tree that the shims do not model and that are passed through uninstrumented: %v", pt))
+		}
+	}
 	b, err := os.ReadFile(filepath.Join(Root, "known_findings.json"))
 	if err == nil {
 		var fs []Finding
@@ -99,7 +105,11 @@ func (r *Run) Distinct(set, value string) bool {
 	return true
 }
 
-func (r *Run) DistinctCount(set string) int { r.mu.Lock(); defer r.mu.Unlock(); return len(r.distinct[set]) }
+func (r *Run) DistinctCount(set string) int {
+	r.mu.Lock()
+	defer r.mu.Unlock()
+	return len(r.distinct[set])
+}
 
 func (r *Run) Sample(s interface{}) {
 	r.mu.Lock()
